@@ -714,7 +714,9 @@ ClassifyPollOp ==
                 "completed-without-own-ack", <<ops[Ln.k].kind, got.r, got.kind>>))
     ELSE IF got.r = "pending" THEN
         (IF want.kind = "ContextExited" THEN V("C14", "hangs-after-context-gone", <<ops[Ln.k].kind, ops[Ln.k].st>>)
-         ELSE V(WithC15("C05"), "completion-withheld", <<ops[Ln.k].kind, want.r, want.kind>>))
+         \* (a publish that does not report the outcome of its handshake when the handshake is over: C06 as well)
+         ELSE V((IF ops[Ln.k].kind = "pub" THEN <<"C05", "C06">> ELSE <<"C05">>) \o (IF g.ncancel > 0 THEN <<"C15">> ELSE <<>>),
+                "completion-withheld", <<ops[Ln.k].kind, want.r, want.kind>>))
     ELSE IF want.kind = "ContextExited" \/ got.kind = "ContextExited" THEN V("C14", "wrong-result-after-exit", <<want.kind, got.kind>>)
     ELSE IF got.kind = "QuotaExceeded" /\ ops[Ln.k].st = "wait2" THEN V(<<"C06", "C10", "C05">>, "pubrel-refused-by-quota", <<want.r, want.kind>>)
     ELSE IF want.kind = "MaximumPacketSizeExceeded" \/ got.kind = "MaximumPacketSizeExceeded"
